@@ -50,6 +50,7 @@ func checkC07(c *Ctx) {
 		"N3: strings/bytes.Index* results used as slice bounds/indices are tested against -1 (or a dominating Has*/Contains fact implies a match). N4: constant and len-minus-constant indices/slice bounds are covered by a length lower bound from the lenbound engine (edge facts on the CFG incl. switch-case unions, s==\"const\", HasPrefix, err==nil summaries of module callees, API models, package-level literals, call-site minima for private functions). " +
 		"N5: make lengths and Repeat counts non-negative, non-constant divisors >= 1, CBC iv length tested. N6: the five-year bound of SpecSchedule.Next is on every cycle that leaves a field-search loop and every search loop advances t by a positive constant. " +
 		"Calls through function values (dispatch tables, func-typed fields, callbacks, method values) and module-declared interface seams are followed in both directions: their targets are in scope, and the call sites bound the targets' parameters (a bound tied to the dispatch key of a multi-target call is never claimed exact). N6 is decided over Next AND the module functions it calls: search loops may live in helpers; a give-up test is recognised in the exact form t.Year() > start+k, through a limit kept in a local/struct/AddDate form, or — form not evaluated — as a returning test inside the driving cycle that compares the time reached with a value fixed before the search; wrap-around tests are told apart because they only look at the loop-carried time. " +
+		"Every load of a variable that is written exactly once (a parameter or local captured by closures, a field of a local struct) stands for the value stored there: a guard on one load covers a use of another, inside a closure too (facts known where the closure is made). " +
 		"Guards may sit in module helpers: a boolean helper on x / len(x) / an int (validLen(len(x))) or the ok flag of a (value, ok) helper is summarised over the helper's returns; a helper whose conditions the engine reads completely hides nothing, so a site behind it stays decidable. x%m == r moves a lower bound to the next number with that remainder; on a difference len(x)-v it is never taken as a sign test. Sizes kept in unexported fields written only by constructors with constants (tagSize) have a known finite range. " +
 		"A site the engine cannot classify (operand of unknown origin, a dominating condition it cannot interpret, variable indices) is counted in the evidence (unclassified_*) and never reported. " +
 		"NOT decided: variable-index bounds (ParseISO8601Duration's scanner, readHeader, processSegments), reflection panics (reflect.Value.Elem/Interface on invalid values), nil dereferences, panics inside third-party code (jwx, mapstructure, x509, cast, resource.ParseQuantity), panicking preconditions of AEAD/CBC primitives other than the iv length (C03 decides those by scenarios), recursion depth of config.Normalize / resolveAliasesInType, termination of loops fed by a reader that returns (0, nil) forever, integer overflow in length arithmetic, and whether Next's result is correct (C04)."
